@@ -999,6 +999,18 @@ class Engine:
             tys = callee.get('args') or []
             pointee = tys[1] if name == 'cast' and len(tys) > 1 else (tys[0] if tys else '_')
             return ('cast', 'PtrToPtr', args[0], '*%s %s' % (mut, pointee))
+        if p.startswith('core::num::<impl ') and name in ('cast_signed', 'cast_unsigned') and len(args) == 1:
+            # the method spellings of `x as iN` / `x as uN` between the two integer types of one width
+            ty = p[len('core::num::<impl '):].split('>')[0]
+            if ty in INT_TYPES:
+                return self.rvalue_cast('IntToInt', args[0], ('i' if name == 'cast_signed' else 'u') + ty[1:])
+        if p.startswith('core::num::<impl u') and name == 'wrapping_add_signed' and len(args) == 2:
+            # x.wrapping_add_signed(d)  is  (x as iN).wrapping_add(d) as uN: the value of the MIR `Add` (which wraps; the
+            # overflow check of `+` is a separate assertion)
+            ty = p[len('core::num::<impl '):].split('>')[0]
+            if ty in INT_TYPES:
+                sty = 'i' + ty[1:]
+                return self.rvalue_cast('IntToInt', self.binop('Add', self.rvalue_cast('IntToInt', args[0], sty), args[1]), ty)
         if name in ('from', 'into') and callee.get('trait') in ('core::convert::From', 'core::convert::Into') and len(args) == 1 and len(callee.get('args') or []) >= 2:
             # the lossless conversions between primitive numbers are the `as` casts
             targs = callee['args']
